@@ -98,11 +98,11 @@ def spline_cert(e, n, fe, fn, md, obs, kind):
 def elastic_cert(which, e, n, fe, fn, md, nu, obs, kind):
     dx, dy = exact_diff(e, fe), exact_diff(n, fn)
     d = math.hypot(dx, dy) + md
-    q = {"ee": dy * dy, "nn": dx * dx, "ne": abs(dx * dy)}[which]
-    tol = 64 * U * (abs(3 - nu) * (1 + abs(math.log(d))) + abs(1 + nu) * q / (d * d))
+    q = {"ee": (dy / d) ** 2, "nn": (dx / d) ** 2, "ne": abs((dx / d) * (dy / d))}[which]
+    tol = 64 * U * (abs(3 - nu) * (1 + abs(math.log(d))) + abs(1 + nu) * q)
     stmt = "Rabs (g_%s (%s - %s) (%s - %s) %s %s - %s) <= %s" % (
         which, fR(e), fR(fe), fR(n), fR(fn), fR(md), fR(nu), fR(obs), fR(tol))
-    script = "unfold g_%s, el_ln, el_over, dist. interval with (i_prec 90)." % which
+    script = "unfold g_%s, el_ln, dist. interval with (i_prec 90)." % which
     repro = ("import verde, numpy as np; J = verde.VectorSpline2D(poisson=%r, mindist=%r).jacobian((np.array([%r]), np.array([%r])), "
              "(np.array([%r]), np.array([%r]))); print(repr(J))  # [[ee, ne], [ne, nn]]" % (nu, md, e, n, fe, fn))
     return Cert(stmt, script, {"kernel": "elastic_" + which, "east": e, "north": n, "force_east": fe, "force_north": fn,
@@ -219,6 +219,10 @@ DISTANCES = [1e-12, 1e-9, 1e-6, 1e-3, 0.03125, 0.3, 0.5, 1 - 2.0 ** -53, 1.0, 1 
              150.0, 700.0, 1e3, 1e5, 1e6, 1e8]
 
 
+# tiny mindist values: squares underflow below ~1.5e-162; around the smallest normal double; subnormals
+TINY = [1e-150, 1e-162, 1.5e-162, 1e-200, 1e-300, 2.2250738585072014e-308, 2.2250738585072009e-308, 1e-310, 5e-324]
+
+
 def _directions(rnd, r):
     """coordinate differences of (float) length ~ r"""
     t = rnd.uniform(0.1, 1.4)
@@ -255,7 +259,7 @@ def spline_samples(vd, rnd, tier):
                 certs.append(spline_cert(e, n, fe, fn, float(md), float(J[0, 0]), "cert-spline"))
     # coincident points
     for (pe, pn) in [(0.0, 0.0), (3.5, -2.25), (1e6 + 0.5, -7e5)]:
-        for md in ([0.0, 0.5, 1.0, 1e-12] if tier == "quick" else [0.0, 0.5, 1.0, 1e-12, E_DOUBLE, 1e-3, 7.0, 1e8]):
+        for md in ([0.0, 0.5, 1.0, 1e-12, 1e-300] if tier == "quick" else [0.0, 0.5, 1.0, 1e-12, E_DOUBLE, 1e-3, 7.0, 1e8] + TINY):
             with warnings.catch_warnings():
                 warnings.simplefilter("ignore")
                 sp = vd.Spline(mindist=md if md else None)
@@ -289,6 +293,20 @@ def elastic_samples(vd, rnd, tier):
                 certs.append(elastic_cert("nn", e, n, fe, fn, float(md), nu, nn, kind))
                 # the off-diagonal blocks alternate between the two positions of the matrix
                 certs.append(elastic_cert("ne", e, n, fe, fn, float(md), nu, ne if k % 2 else ne2, kind))
+    # tiny positive mindist (mindist**2 underflows / subnormal): coincident points and points apart
+    tiny = [1e-162, 1e-300, 2.2250738585072014e-308, 5e-324] if tier == "quick" else TINY
+    for md in tiny:
+        for (fe, fn, dx, dy) in ([(0.0, 0.0, 0.0, 0.0), (2.5, -1.0, 0.0, 0.0), (0.0, 0.0, 0.375, -1.5)] if tier == "quick" else
+                                 [(0.0, 0.0, 0.0, 0.0), (2.5, -1.0, 0.0, 0.0), (-1024.0, 512.0, 0.0, 0.0), (0.0, 0.0, 0.375, -1.5),
+                                  (2.5, -1.0, 1e-3, 0.0), (0.0, 0.0, -3e4, 4e4)]):
+            k += 1
+            nu = nus[k % len(nus)]
+            e, n = fe + dx, fn + dy
+            J = vd.VectorSpline2D(poisson=nu, mindist=md).jacobian((np.array([e]), np.array([n])), (np.array([fe]), np.array([fn])))
+            kind = "cert-elastic-tiny-mindist-coincident" if (dx == 0 and dy == 0) else "cert-elastic-tiny-mindist"
+            certs.append(elastic_cert("ee", e, n, fe, fn, float(md), nu, float(J[0, 0]), kind))
+            certs.append(elastic_cert("nn", e, n, fe, fn, float(md), nu, float(J[1, 1]), kind))
+            certs.append(elastic_cert("ne", e, n, fe, fn, float(md), nu, float(J[0, 1] if k % 2 else J[1, 0]), kind))
     return certs
 
 
@@ -517,21 +535,21 @@ def scipy_case(vd, rnd, cls_name, rescale, kind):
                 % (cls_name, rescale, rescale), kind, nontrivial=bool(sensitive))
 
 
-def finite_case(vd, rnd, vector, kind):
+def finite_case(vd, rnd, vector, kind, i_tiny=None):
     n = rnd.randint(2, 6)
     pe = np.array([rnd.uniform(-1e3, 1e3) for _ in range(n)]); pn = np.array([rnd.uniform(-1e3, 1e3) for _ in range(n)])
     pe[-1], pn[-1] = pe[0], pn[0]     # a duplicated point as well
     with warnings.catch_warnings():
         warnings.simplefilter("ignore")
         if vector:
-            md = rnd.choice([10e3, 1.0, 1e-6, 1e-150])
+            md = rnd.choice([10e3, 1.0, 1e-6] + TINY) if i_tiny is None else TINY[i_tiny % len(TINY)]
             g = vd.VectorSpline2D(poisson=rnd.choice([0.5, -1.0, 1.0]), mindist=md)
             J = g.jacobian((pe, pn), (pe, pn))
             g.force_coords = (pe, pn); g.force_ = np.ones(2 * n)
             y = np.concatenate(g.predict((pe, pn)))
             desc = {"gridder": "VectorSpline2D", "poisson": g.poisson, "mindist": md}
         else:
-            md = rnd.choice([0.0, 0.0, 1e-3, 1.0])
+            md = rnd.choice([0.0, 0.0, 1e-3, 1.0, 1e-300, 5e-324])
             g = vd.Spline(mindist=md if md else None)
             J = g.jacobian((pe, pn), (pe, pn))
             g.force_coords_ = (pe, pn); g.force_ = np.ones(n)
@@ -592,6 +610,8 @@ def generate(tier, seed):
     for i in range(6 if quick else 60):
         k = "finite-vector" if i % 2 else "finite-spline"
         cases += _guard(finite_case, k, vd, rnd, vector=bool(i % 2), kind=k)
+    for i in range(len(TINY)):     # every tiny mindist, forces on the data points
+        cases += _guard(finite_case, "finite-vector-tiny-mindist", vd, rnd, vector=True, kind="finite-vector-tiny-mindist", i_tiny=i)
     for region in [(0.0, 5000.0, -5000.0, 0.0), (-10.0, 6.0, 2.0, 3.0), (100.0, 103.5, -8.0, 56.0)]:
         cases += _guard(half_case, "checkerboard-default-wavelength", vd, region)
     return cases
